@@ -2054,7 +2054,7 @@ class Stream(AbstractStream):
     @property
     def vle(self) -> eq.VLE:
         """An object that can perform vapor-liquid equilibrium on the stream."""
-        if self.phase == 's': self.phase = 'l'
+        if self.phase in ('s', 'S'): self.phase = 'l'
         self.phases = ('g', 'l')
         return self.vle
 
